@@ -132,11 +132,12 @@ const (
 	OddFixedPitchCapital
 	OddDupLigSucc
 	OddShortB
+	OddDupHeaders
 )
 
 var oddNames = []string{"none", "duplicate-glyph-line", "same-code-twice", "code-256", "code-1000", "code-minus-5",
 	"omit-WX", "omit-B", "duplicate-FontName", "notice-double-space", "line-without-N", "IsFixedPitch-True",
-	"duplicate-L-successor", "B-with-3-numbers"}
+	"duplicate-L-successor", "B-with-3-numbers", "every-header-key-twice"}
 
 // Layout is one value per dimension.
 type Layout [NumLayoutDims]int
@@ -276,6 +277,17 @@ func Write(m *Model, lay Layout) string {
 		// an earlier FontName line; the last one wins in a key/value reader
 		fontNameFirst := "Earlier-Name"
 		w.line("FontName", fontNameFirst)
+	}
+	if odd == OddDupHeaders {
+		// an earlier line for every header key (texts and numbers)
+		w.line("FontName", "Earlier-Name")
+		w.line("FullName", "Earlier", "Full", "Name")
+		w.line("Version", "000.001")
+		w.line("Notice", "an", "earlier", "notice", "line")
+		w.line("CapHeight", "1")
+		w.line("UnderlinePosition", "-1")
+		w.line("ItalicAngle", "-1")
+		w.line("Descender", "-1")
 	}
 	switch lay[LHeaderOrder] {
 	case 1:
